@@ -360,10 +360,18 @@ class Module:
                         handle_method(s, q, ci, parent_func)
                     elif isinstance(s, (ast.Import, ast.ImportFrom)):
                         record_import(s, "top" if pos == "top" else pos, parent_func)
-                    elif isinstance(s, (ast.If, ast.Try)):
-                        # conditional method definitions
-                        for sub in ast.walk(s):
-                            if isinstance(sub, (ast.FunctionDef, ast.AsyncFunctionDef)) and sub.name not in ci.methods:
+                    elif isinstance(s, (ast.If, ast.Try, ast.With, ast.For, ast.While)):
+                        # conditional method definitions (``if``/``try``/``with contextlib.suppress(...)`` blocks in
+                        # a class body); nested function bodies are not entered
+                        def _defs(node):
+                            for ch in ast.iter_child_nodes(node):
+                                if isinstance(ch, (ast.FunctionDef, ast.AsyncFunctionDef)):
+                                    yield ch
+                                elif not isinstance(ch, (ast.ClassDef, ast.Lambda)):
+                                    yield from _defs(ch)
+
+                        for sub in _defs(s):
+                            if sub.name not in ci.methods:
                                 handle_method(sub, q, ci, parent_func)
             elif isinstance(stmt, ast.If):
                 t = unparse(stmt.test)
